@@ -24,6 +24,7 @@ import SwcVerif.Model.AlgoRunBranches
 import SwcVerif.Model.AlgoRunRedirect
 import SwcVerif.Model.AlgoRunAssemble
 import SwcVerif.Model.AlgoRunLMeasure
+import SwcVerif.Model.AlgoRunNodeBranch
 import SwcVerif.Model.Assemble
 
 def dispatch (op : String) (args : List String) : String :=
@@ -66,6 +67,7 @@ def dispatch (op : String) (args : List String) : String :=
   | "gchain" => AlgoRun.handleChain args
   | "gredirect" => AlgoRun.handleRedirect args
   | "glm" => AlgoRun.handleLm args
+  | "gtips" | "gnodebranch" | "gnode" => AlgoRun.handleNodeBranch op args
   | "asm" => Asm.handle args
   | "gasm" => AlgoRun.handleAsm args
   | "swcline" => SwcText.handleLine args
